@@ -204,7 +204,7 @@ func (ex *Exec) hashDigest(code uint64, data []*Term, size int) []*Term {
 	k := len(ex.hashMemo)
 	d := make([]*Term, size)
 	for i := range d {
-		d[i] = tt.Var(fmt.Sprintf("H%x#%d[%d]", code, k, i), 8)
+		d[i] = ex.newAux(fmt.Sprintf("H%x#%d[%d]", code, k, i), 8)
 	}
 	for _, e := range ex.hashMemo {
 		if e.code == code && len(e.data) == len(data) {
@@ -324,9 +324,18 @@ func (ex *Exec) cborDump(v Value) Value {
 }
 
 type cborReader struct {
-	b   []byte
+	b   []*Term
 	pos int
 	bad bool
+	sym bool // a structural byte was symbolic: outside the structural model
+}
+
+func (r *cborReader) byteAt(i int) byte {
+	if !r.b[i].IsConst() {
+		r.sym = true
+		return 0
+	}
+	return byte(r.b[i].val)
 }
 
 func (r *cborReader) head() (major byte, arg uint64, indef bool) {
@@ -334,7 +343,7 @@ func (r *cborReader) head() (major byte, arg uint64, indef bool) {
 		r.bad = true
 		return
 	}
-	ib := r.b[r.pos]
+	ib := r.byteAt(r.pos)
 	r.pos++
 	major = ib >> 5
 	ai := ib & 0x1f
@@ -348,7 +357,7 @@ func (r *cborReader) head() (major byte, arg uint64, indef bool) {
 			return
 		}
 		for i := 0; i < n; i++ {
-			arg = arg<<8 | uint64(r.b[r.pos+i])
+			arg = arg<<8 | uint64(r.byteAt(r.pos+i))
 		}
 		r.pos += n
 	case ai == 31:
@@ -360,8 +369,13 @@ func (r *cborReader) head() (major byte, arg uint64, indef bool) {
 }
 
 // cborDecodeConcrete decodes a concrete header; ok=false means "outside the modelled subset".
-func cborDecodeConcrete(b []byte) (roots [][]byte, rootsNil bool, version uint64, errMsg string, ok bool) {
+func cborDecodeConcrete(b []*Term) (roots [][]*Term, rootsNil bool, version uint64, errMsg string, ok bool) {
 	r := &cborReader{b: b}
+	defer func() {
+		if r.sym {
+			ok = false
+		}
+	}()
 	rootsNil = true
 	mj, n, indef := r.head()
 	if r.bad || mj != 5 {
@@ -371,7 +385,7 @@ func cborDecodeConcrete(b []byte) (roots [][]byte, rootsNil bool, version uint64
 		return nil, true, 0, "truncated", true
 	}
 	for i := uint64(0); indef || i < n; i++ {
-		if indef && r.pos < len(r.b) && r.b[r.pos] == 0xff {
+		if indef && r.pos < len(r.b) && r.byteAt(r.pos) == 0xff {
 			r.pos++
 			break
 		}
@@ -385,8 +399,15 @@ func cborDecodeConcrete(b []byte) (roots [][]byte, rootsNil bool, version uint64
 		if r.pos+int(klen) > len(r.b) || klen > 64 {
 			return nil, true, 0, "truncated key", true
 		}
-		key := string(r.b[r.pos : r.pos+int(klen)])
+		kb := make([]byte, klen)
+		for i := range kb {
+			kb[i] = r.byteAt(r.pos + i)
+		}
+		key := string(kb)
 		r.pos += int(klen)
+		if r.sym {
+			return nil, true, 0, "", false
+		}
 		switch key {
 		case "version":
 			vmj, v, vindef := r.head()
@@ -401,7 +422,7 @@ func cborDecodeConcrete(b []byte) (roots [][]byte, rootsNil bool, version uint64
 			}
 			version = v
 		case "roots":
-			if r.pos < len(r.b) && r.b[r.pos] == 0xf6 {
+			if r.pos < len(r.b) && r.byteAt(r.pos) == 0xf6 {
 				r.pos++
 				roots, rootsNil = nil, true
 				continue
@@ -413,9 +434,9 @@ func cborDecodeConcrete(b []byte) (roots [][]byte, rootsNil bool, version uint64
 			if amj != 4 {
 				return nil, true, 0, "roots is not an array", true
 			}
-			roots, rootsNil = [][]byte{}, false
+			roots, rootsNil = [][]*Term{}, false
 			for j := uint64(0); aindef || j < alen; j++ {
-				if aindef && r.pos < len(r.b) && r.b[r.pos] == 0xff {
+				if aindef && r.pos < len(r.b) && r.byteAt(r.pos) == 0xff {
 					r.pos++
 					break
 				}
@@ -438,7 +459,13 @@ func cborDecodeConcrete(b []byte) (roots [][]byte, rootsNil bool, version uint64
 				}
 				lb := r.b[r.pos : r.pos+int(blen)]
 				r.pos += int(blen)
-				if len(lb) == 0 || lb[0] != 0 {
+				if len(lb) == 0 {
+					return nil, true, 0, "invalid multibase on IPLD link", true
+				}
+				if !lb[0].IsConst() {
+					return nil, true, 0, "", false
+				}
+				if lb[0].val != 0 {
 					return nil, true, 0, "invalid multibase on IPLD link", true
 				}
 				roots = append(roots, lb[1:])
@@ -469,18 +496,20 @@ func (ex *Exec) cborDecodeInto(b *SliceVal, target Value) Value {
 		sv.f[0].v = &SliceVal{arr: a, len: len(cids), cap: len(cids)}
 	}
 	bs := ex.sliceBytesOrNil(b)
-	if cb, ok := ex.concreteBytes(bs); ok {
-		roots, rootsNil, version, errMsg, modelled := cborDecodeConcrete(cb)
-		if !modelled {
-			ex.unsupported(fmt.Sprintf("cbor model: concrete header outside the modelled DAG-CBOR subset: %x", cb))
-		}
+	_, allConcrete := ex.concreteBytes(bs)
+	roots, rootsNil, version, errMsg, modelled := cborDecodeConcrete(bs)
+	if allConcrete && !modelled {
+		cb, _ := ex.concreteBytes(bs)
+		ex.unsupported(fmt.Sprintf("cbor model: concrete header outside the modelled DAG-CBOR subset: %x", cb))
+	}
+	if modelled {
 		if errMsg != "" {
 			return ex.newOpaqueError("cbor: "+errMsg, nil)
 		}
 		var cids []Value
 		castFn := ex.pkgFunc("github.com/ipfs/go-cid", "Cast")
 		for _, rb := range roots {
-			res := ex.callFunction(castFn, []Value{ex.mkByteSlice(ex.constBytes(rb))}, nil).(TupleVal)
+			res := ex.callFunction(castFn, []Value{ex.mkByteSlice(append([]*Term(nil), rb...))}, nil).(TupleVal)
 			if e := res[1].(*IfaceVal); e.t != nil {
 				return ex.newOpaqueError("cbor: bad cid in roots", nil)
 			}
@@ -501,17 +530,17 @@ func (ex *Exec) cborDecodeInto(b *SliceVal, target Value) Value {
 		return ex.newOpaqueError("cbor: decode error (abstract)", nil)
 	case 1:
 		setRoots(nil, true)
-		sv.f[1].v = tt.Var(ex.inputName("cbor.version"), 64)
+		sv.f[1].v = ex.newAux(ex.inputName("cbor.version"), 64)
 		return nilErr()
 	default:
 		n := 4
 		cb := make([]*Term, n)
 		name := ex.inputName("cbor.root")
 		for i := range cb {
-			cb[i] = tt.Var(fmt.Sprintf("%s[%d]", name, i), 8)
+			cb[i] = ex.newAux(fmt.Sprintf("%s[%d]", name, i), 8)
 		}
 		setRoots([]Value{mkCid(cb)}, false)
-		sv.f[1].v = tt.Var(ex.inputName("cbor.version"), 64)
+		sv.f[1].v = ex.newAux(ex.inputName("cbor.version"), 64)
 		return nilErr()
 	}
 }
